@@ -415,7 +415,7 @@ fn peek_ord(attrs: &Vec<Attribute>, name: &str) -> Option<u64> {
 // ---------------------------------------------------------------------------------------------
 // R3: drop logging / debug assertions
 
-struct LogPass<'a> { rules: &'a mut Rules, drop_macros: Vec<String>, drop_nested: Vec<String> }
+struct LogPass<'a> { rules: &'a mut Rules, drop_macros: Vec<String>, drop_nested: Vec<String>, drop_stmts: Vec<String>, dropped: Vec<String> }
 fn macro_name(p: &Path) -> String {
     p.segments.iter().map(|s| s.ident.to_string()).collect::<Vec<_>>().join("::")
 }
@@ -431,6 +431,16 @@ impl<'a> VisitMut for LogPass<'a> {
             if let Some(n) = name {
                 if self.drop_macros.iter().any(|d| *d == n) {
                     self.rules.hit("R3.log_stmt_dropped");
+                    continue;
+                }
+            }
+            // @drop: a statement the contract file names explicitly (purely observational code such as progress reporting);
+            // every dropped statement is listed in the evidence
+            {
+                let st = norm(&s.to_token_stream().to_string());
+                if let Some(pfx) = self.drop_stmts.iter().find(|d| st.starts_with(&norm(d))) {
+                    self.rules.hit("DROP.statement_named_in_contract_file");
+                    self.dropped.push(pfx.clone());
                     continue;
                 }
             }
@@ -1268,7 +1278,12 @@ fn process_fn(
         errors.push(format!("{}: async fn (outside the supported subset unless the contract asks for R16)", path));
     }
     // R3
-    LogPass { rules, drop_macros: job.drop_macros.clone(), drop_nested: spec.get("drop_nested").and_then(|v| v.as_array()).map(|a| a.iter().filter_map(|x| x.as_str().map(|s| s.to_string())).collect()).unwrap_or_default() }.visit_block_mut(block);
+    {
+        let drop_stmts: Vec<String> = spec.get("drop_stmts").and_then(|v| v.as_array()).map(|a| a.iter().filter_map(|x| x.as_str().map(|s| s.to_string())).collect()).unwrap_or_default();
+        let mut lp = LogPass { rules, drop_macros: job.drop_macros.clone(), drop_nested: spec.get("drop_nested").and_then(|v| v.as_array()).map(|a| a.iter().filter_map(|x| x.as_str().map(|s| s.to_string())).collect()).unwrap_or_default(), drop_stmts: drop_stmts.clone(), dropped: vec![] };
+        lp.visit_block_mut(block);
+        for d in &drop_stmts { if !lp.dropped.contains(d) { errors.push(format!("{}: lost anchor: statement to drop not found: {}", path, d)); } }
+    }
     // R4
     LetChainPass { rules }.visit_block_mut(block);
     // R5
@@ -1693,7 +1708,7 @@ fn main() {
                     if let ImplItem::Fn(m) = ii {
                         filter_attrs(&mut m.attrs, &cfg, &mut rules);
                         AttrPass { cfg: &cfg, rules: &mut rules }.visit_block_mut(&mut m.block);
-                        LogPass { rules: &mut rules, drop_macros: drop_macros.clone(), drop_nested: vec![] }.visit_block_mut(&mut m.block);
+                        LogPass { rules: &mut rules, drop_macros: drop_macros.clone(), drop_nested: vec![], drop_stmts: vec![], dropped: vec![] }.visit_block_mut(&mut m.block);
                     }
                 }
                 rules.hit("R10.trait_impl_kept");
